@@ -788,8 +788,8 @@ func init() {
 		for i := 0; i < tierPick(tier, 16, 600); i++ {
 			cases = append(cases, e12TailCase(seed, i))
 		}
-		for tr := 0; tr < tierPick(tier, 4, 60); tr++ {
-			K := tierPick(tier, 20, 60)
+		for tr := 0; tr < tierPick(tier, 8, 60); tr++ {
+			K := tierPick(tier, 64, 128)
 			for k := 0; k < K; k++ {
 				cases = append(cases, e12PointCase(seed, tr, []string{"cancel", "close"}[(k+tr)%2], k, K, false))
 			}
